@@ -10,20 +10,24 @@ Open Scope N_scope.
    not the prefix length), so a binding outside the home LAN passes [net1.LAN.Contains] *)
 Definition known_C18_bits (c : cfg) (i : input) : bool :=
   match i with
-  | Doc d => match d_net1 d with
+  | Doc _ d => match d_net1 d with
              | Some n => pbits (s_lan n) <? pbits (c_home c)
              | None => false
              end
   | _ => false
   end.
 
-(* tables whose Allocated leases do not all survive loadByteArray's validation: an acknowledged lease with
-   (a) an empty client id (a client sending option 61 with length 0: still reachable, finding
-       restart-drops-empty-clientid), or
-   (b) an address outside net1 (was reachable through DESIGN 11 #22 until /repo 7baf630, which makes allocIPOffer
-       take a requested address only inside the lease's subnet; kept because the theorem quantifies over ALL
-       tables, not only the reachable ones) *)
-Definition known_C18_restart (s1 : subnet) (t : table) : bool :=
-  existsb (fun l => allocated l &&
-                    negb (avalid (r_ip (l_rec l)) && contains (s_lan (n_cfg s1)) (r_ip (l_rec l))
-                          && negb (bytes_eqb (r_cid (l_rec l)) []))) t.
+(* Which Allocated leases of a table are dropped by loadByteArray's validation at the next restart. *)
+
+(* the recorded class (finding restart-drops-empty-clientid): an acknowledged lease with an empty client id — a
+   client sending option 61 with length 0 is ACKed under the empty id, saveConfig omits it, the load drops it *)
+Definition known_C18_restart (t : table) : bool :=
+  existsb (fun l => allocated l && bytes_eqb (r_cid (l_rec l)) []) t.
+
+(* a state invariant of the DHCP server, not a defect class: every acknowledged address is a valid address inside
+   net1.  Since /repo 7baf630 (allocIPOffer takes a requested address only inside the lease's subnet; C11) no
+   reachable table violates it when net2 lies inside net1; before, it was the finding restart-drops-offsubnet-lease.
+   It is a hypothesis of C18_restart because that theorem quantifies over ALL tables, reachable or not. *)
+Definition alloc_in_net1 (s1 : subnet) (t : table) : bool :=
+  forallb (fun l => negb (allocated l)
+                    || (avalid (r_ip (l_rec l)) && contains (s_lan (n_cfg s1)) (r_ip (l_rec l)))) t.
